@@ -30,9 +30,10 @@ const (
 	lifetime    = 4 * time.Second        // no InterestLifetime element: the forwarder assumes 4 s
 	suppression = 500 * time.Millisecond // BestRouteSuppressionTime == MulticastSuppressionTime
 	missingFace = uint64(99)
-	hintOut     = "/a/b/h" // delegation outside the producer region (LPM: /a/b, /a, /)
-	hintIn      = "/r/x"   // delegation inside the producer region /r
-	hintOut2    = "/c/h"   // a second delegation outside the region (LPM: /c, /)
+	hintOut     = "/a/b/h"     // delegation outside the producer region (LPM: /a/b, /a, /)
+	hintIn      = "/r/x"       // delegation inside the producer region /r
+	hintOut2    = "/c/h"       // a second delegation outside the region (LPM: /c, /)
+	hintSite    = "/r/site/gw" // delegation inside the nested producer region /r/site
 )
 
 var faceLabel = map[uint64]string{fwsim.L1: "L1", fwsim.N2: "N2", fwsim.N3: "N3", fwsim.N4: "N4", fwsim.L5: "L5", fwsim.A6: "A6", missingFace: "missing"}
@@ -173,7 +174,7 @@ var slices = map[string]slice{
 		routes: []fwsim.Route{{Prefix: "/", Face: fwsim.N2, Cost: 1}, {Prefix: "/a", Face: fwsim.N3, Cost: 1}, {Prefix: "/a/b", Face: fwsim.N4, Cost: 1}, {Prefix: "/c/h", Face: fwsim.L5, Cost: 1}},
 		iops: append(prod([]uint64{fwsim.L1, fwsim.N3}, []string{"/a", "/c"}, func(f uint64, n string) []iOp {
 			out := []iOp{}
-			for _, h := range []string{"", "in", "out", "out+in", "in+out", "out+out2"} {
+			for _, h := range []string{"", "in", "site", "out", "out+in", "in+out", "out+out2"} {
 				out = append(out, iOp{face: f, name: n, nonce: "fresh", hl: -1, hint: h})
 			}
 			return out
@@ -249,12 +250,25 @@ func build(cfgName string) explore.System {
 	if _, err := fmt.Sscanf(cfgName, "%s %s %s %s", &sl, &st, &cs, &fib); err != nil {
 		report.Fatal("bad config name %q", cfgName)
 	}
+	// producer regions as configured (order matters to networkRegionTable.Add): the reference
+	// treats them as a set - a name is in the producer region iff some listed region is a prefix
+	regions := []string{"/r"}
+	if f := strings.Fields(cfgName); len(f) >= 5 {
+		switch f[4] {
+		case "regions=/r/site,/r":
+			regions = []string{"/r/site", "/r"}
+		case "regions=/r,/r/site":
+			regions = []string{"/r", "/r/site"}
+		default:
+			report.Fatal("bad region variant in %q", cfgName)
+		}
+	}
 	slc, ok := slices[sl]
 	if !ok {
 		report.Fatal("unknown slice %q", sl)
 	}
 	s := &sys{cfgName: cfgName, defs: map[string]opDef{}, uni: slc.universes}
-	s.cfg = fwsim.Config{Routes: slc.routes, Regions: []string{"/r"}}
+	s.cfg = fwsim.Config{Routes: slc.routes, Regions: regions}
 	switch st {
 	case "br":
 		s.cfg.Strategies = []fwsim.StrategyChoice{{Prefix: "/", Strategy: fwsim.BestRoute}}
@@ -635,12 +649,14 @@ func configs(th bool) []explore.Config {
 		add("adhoc", "mc", "cs1", "ht", 5)
 		add("nonce", "br", "cs1", "ht", 5)
 		add("nonce", "mc", "cs0", "tree", 5)
-		add("hint", "br", "cs0", "tree", 5)
-		add("hint", "mc", "cs1", "ht", 5)
+		add("hint", "br", "cs0", "tree", 4)
+		add("hint", "mc", "cs1", "ht", 4)
+		add("hint", "mc", "cs0", "tree regions=/r/site,/r", 4)
+		add("hint", "br", "cs1", "ht regions=/r,/r/site", 4)
 		add("hop", "br", "cs0", "ht", 5)
 		add("hop", "mc", "cs1", "tree", 5)
 		add("route", "br", "cs0", "tree", 5)
-		add("route", "mc", "cs0", "ht", 5)
+		add("route", "mc", "cs0", "ht", 4)
 		return c
 	}
 	for _, st := range []string{"br", "mc"} {
@@ -650,6 +666,8 @@ func configs(th bool) []explore.Config {
 				add("adhoc", st, cs, fib, 6)
 				add("nonce", st, cs, fib, 6)
 				add("hint", st, cs, fib, 5)
+				add("hint", st, cs, fib+" regions=/r/site,/r", 5)
+				add("hint", st, cs, fib+" regions=/r,/r/site", 4)
 				add("hop", st, cs, fib, 5)
 				add("route", st, cs, fib, 6)
 			}
@@ -681,7 +699,7 @@ func main() {
 			}
 			cov["oracle_branches_exercised"] = o
 		},
-		Rule: "BFS over histories of Interest arrivals (names /a,/a/b,/c; nonce fresh|repeated|absent; hop limit absent|0|1|2; forwarding hint none|in-region|out-of-region|(out,in)|(in,out)|(out,out'); NextHopFaceId none|N2|self|missing on a face with and one without consumer-controlled forwarding; local, non-local and ad-hoc arrival faces), Data arrivals (by name, echoing a live token), clock steps 100/400/600 ms and 5 s, and FIB/strategy changes between packets (AddRoute, RemoveRoute, SetStrategy, UnsetStrategy) on one real fw.Thread with real PIT-CS, dead nonce list, FIB (tree / hash table) and strategies; forwarding hints with two delegations in either order; FIB universes: all 81 subsets of {(/,N2),(/a,N2),(/a,N3),(/a/b,N4)} with costs {1,2}, each with and without a sibling route (/c,N4), as first step of the route slice plus fixed FIBs with ties, a local and an ad-hoc next hop; every Interest SendPacket is compared with a three-valued reference (C02.nh/noback/best/first/drop/suppress/token); states de-duplicated on reference + white-box PIT-CS dump + FIB dump",
+		Rule: "BFS over histories of Interest arrivals (names /a,/a/b,/c; nonce fresh|repeated|absent; hop limit absent|0|1|2; forwarding hint none|in-region|in-nested-region|out-of-region|(out,in)|(in,out)|(out,out'), producer regions [/r], [/r/site,/r], [/r,/r/site]; NextHopFaceId none|N2|self|missing on a face with and one without consumer-controlled forwarding; local, non-local and ad-hoc arrival faces), Data arrivals (by name, echoing a live token), clock steps 100/400/600 ms and 5 s, and FIB/strategy changes between packets (AddRoute, RemoveRoute, SetStrategy, UnsetStrategy) on one real fw.Thread with real PIT-CS, dead nonce list, FIB (tree / hash table) and strategies; forwarding hints with two delegations in either order; FIB universes: all 81 subsets of {(/,N2),(/a,N2),(/a,N3),(/a/b,N4)} with costs {1,2}, each with and without a sibling route (/c,N4), as first step of the route slice plus fixed FIBs with ties, a local and an ad-hoc next hop; every Interest SendPacket is compared with a three-valued reference (C02.nh/noback/best/first/drop/suppress/token); states de-duplicated on reference + white-box PIT-CS dump + FIB dump",
 		Assumptions: []string{
 			"faces are simulated at the dispatch.Face seam (verif/harness/fwsim): a received frame becomes a defn.Pkt exactly as NDNLPLinkService.handleIncomingFrame + dispatchInterest/dispatchData build it; NextHopFaceId is honoured only on faces with local fields enabled; one forwarding thread (id 0)",
 			"'usable' is three-valued: a next hop equal to a point-to-point arrival face is unusable (C02.noback); a next hop that is the ad-hoc arrival face, that itself holds an in-record of the same PIT entry, or that is non-local while the decremented hop limit is 0, may or may not be used; every other next hop of the LPM entry must count as usable",
